@@ -442,6 +442,14 @@ example : (rfc7233 exReq exResp).status = 206 ∧
     (rfc7233 exReq exResp).contentRange = some (ofString "bytes 2-5/12") ∧
     (rfc7233 exReq exResp).body.flatten = ofString "llo " := by decide
 example : exResp.status = 200 ∧ (process exResp (ofString "bytes=2-5")).status = 206 := by decide
+/-- two ranges more than 80 bytes apart on a 200-byte body in two chunks: a multipart answer -/
+example : (process { exResp with body := [List.replicate 100 65, List.replicate 100 66] }
+      (ofString "bytes=0-0, 100-100")).contentType = some multipartType ∧
+    (parse (ofString "0-0, 100-100") 200).map toNatRng = [(0, 0), (100, 100)] ∧
+    (process { exResp with body := [List.replicate 100 65, List.replicate 100 66] }
+      (ofString "bytes=0-0, 100-100")).body.flatten =
+      multipartBody (List.replicate 100 65 ++ List.replicate 100 66) none [(0, 0), (100, 100)] := by
+  decide +kernel
 example : slice (ofString "hello world!") 2 5 = ofString "llo " := by decide
 example : natDec 12 = ofString "12" := by decide
 example : cqRange [ofString "hello ", ofString "world!"] 4 4 = ofString "o wo" := by decide
